@@ -14,6 +14,7 @@
 //             r digits with value in [lo,hi], z digits with value outside [lo,hi)
 //   line 2..: one argv word per line; \x01<k> inserts slot k
 #include "vs.h"
+#include "celma/container/dynamic_bitset.hpp"
 #include "celma/prog_args.hpp"
 #include "celma/prog_args/groups.hpp"
 #include "celma/prog_args/eval_argument_string.hpp"
@@ -128,7 +129,7 @@ struct Dest {
    std::set<int> st;
    int arr[3] = {0, 0, 0};
    std::array<int, 3> sa{{0, 0, 0}};
-   std::bitset<8> bs; std::bitset<200> bigbs;
+   std::bitset<8> bs; std::bitset<200> bigbs; celma::container::DynamicBitset dynbs{4};
    std::vector<bool> vb;
    std::map<int, int> kv;
    std::tuple<int, int, int> tp{0, 0, 0};
@@ -185,6 +186,11 @@ void setup(Handler& ah, Dest& d, int cfg, int part /* 0 = all, 1/2 = halves for 
       ah.addArgument("p", DEST_VAR(d.p), "p"); ah.addArgument("q", DEST_VAR(d.q), "q"); ah.addConstraint(any_of("-p;-q"));
       ah.addArgument("x", DEST_VAR(d.x), "x"); ah.addArgument("y", DEST_VAR(d.y), "y"); ah.addConstraint(one_of("-x;-y"));
       ah.addArgument("r", DEST_VAR(d.r), "r")->addConstraint(requiresArg("-a")); ah.addArgument("g", DEST_VAR(d.g), "g")->addConstraint(excludes("-p"));
+   } else if (cfg == 21) {
+      // argument constraints whose partner arguments are spelled in every way on the command line
+      if (in(1)) { ah.addArgument("s,name", DEST_VAR(d.s), "name")->addConstraint(requiresArg("n,number")); ah.addArgument("n,number", DEST_VAR(d.n), "number");
+                   ah.addArgument("q,quiet", DEST_VAR(d.q), "quiet")->addConstraint(excludes("v,verbose")); ah.addArgument("v,verbose", DEST_VAR(d.f), "verbose"); }
+      if (in(2)) { ah.addArgument("g,gflag", DEST_VAR(d.g), "flag"); }
    } else if (cfg == 9) {
       // the same argument required by one argument and excluded by another
       if (in(1)) { ah.addArgument("a", DEST_VAR(d.a), "a")->addConstraint(requiresArg("c")); ah.addArgument("b", DEST_VAR(d.b), "b")->addConstraint(excludes("c"));
@@ -284,7 +290,7 @@ void setup(Handler& ah, Dest& d, int cfg, int part /* 0 = all, 1/2 = halves for 
       auto* b = ah.addArgument("b,bits", DEST_VAR(d.bs), "bitset");
       if (pa_opt & 2048) { d.bs.set(); b->unsetFlag(); }                           // all bits set before, the argument clears the positions
       if (pa_opt & 4096) b->addFormat(lowercase());                               // a (here: neutral) value formatter
-      } ah.addArgument("B,bigbits", DEST_VAR(d.bigbs), "bitset of several words");
+      } ah.addArgument("B,bigbits", DEST_VAR(d.bigbs), "bitset of several words"); ah.addArgument("D,dynbits", DEST_VAR(d.dynbs), "dynamic bitset (grows)");
       d.vb.resize((pa_opt >> 7) & 3);          // a destination that already has 0..3 (cleared) positions
       ah.addArgument("z,vbool", DEST_VAR(d.vb), "vector<bool>");
       ah.addArgument("f,flag", DEST_VAR(d.f), "flag");
@@ -414,6 +420,7 @@ void check_dests(const Tmpl& t, const Dest& d) {
       else if (k == "weight") check_fp(t, e, d.weight, 0.25, false, "destination weight (double, integer range limits)");
       else if (k == "quota") check_fp(t, e, d.quota, 0.25, false, "destination quota (double, lower/upper-checked)");
       else if (k == "flt") check_fp(t, e, (double) d.flt, 0.5, true, "destination flt (float)");
+      else if (k == "dynbs") { size_t want = 0; for (auto& part : split(e, ',')) { long pos = part[0] == '#' ? slot_int(t.slots[part[1] - '0']) : to_long(part); vs_assert(pos >= 0 && (size_t) pos < d.dynbs.size() && d.dynbs.test((size_t) pos), "destination dynbs (DynamicBitset) grew and has the position set"); ++want; } vs_assert(d.dynbs.count() <= want, "destination dynbs (DynamicBitset) has no other position set"); }
       else if (k == "bigbs") { size_t want = 0; for (auto& part : split(e, ',')) { long pos = part[0] == '#' ? slot_int(t.slots[part[1] - '0']) : to_long(part); vs_assert(pos >= 0 && pos < 200 && d.bigbs.test((size_t) pos), "destination bigbs (bitset<200>) has the position set"); ++want; } vs_assert(d.bigbs.count() <= want, "destination bigbs (bitset<200>) has no other position set"); }
       else if (k == "bsc" || k == "bss") {      // bitset<8>: exactly the listed positions are cleared (bsc) / set (bss), all others the opposite
          bool listed[8] = {false, false, false, false, false, false, false, false};
@@ -866,4 +873,25 @@ HX void hx_pa_group_subkey(uint64_t mode, uint64_t) {
    });
    vs_assert(rc != 2, "only std::exception");
    vs_assert((rc == 1) == ((mode & 7) <= 3), "a key (normal or sub-group) defined in one member handler is refused in another member handler, other keys are accepted");
+}
+
+// C05/C03: long keys that contain dashes - also as their second character ("x-ray", "e-mail") - are ordinary long keys
+HX void hx_pa_dashkey(uint64_t form, uint64_t) {
+   static const char* const FORMS[] = {"x-ray", "--x-ray", "x,x-ray", "-x,--x-ray", "x-ray,x", "e-mail", "a-b-c", "in-file"};
+   static const char* const LONG[] = {"--x-ray", "--x-ray", "--x-ray", "--x-ray", "--x-ray", "--e-mail", "--a-b-c", "--in-file"};
+   static const char* const ABBR[] = {"--x-r", "--x-", "--x-ra", "--x-r", "--x-r", "--e-m", "--a-b", "--in-"};
+   Handler ah(0); int x = 0; bool f = false;
+   int rc0 = guarded([&] { ah.addArgument(FORMS[form], DEST_VAR(x), "value"); ah.addArgument("f,flag", DEST_VAR(f), "flag"); });
+   vs_assert(rc0 == 0, "a long key may contain dashes, also as its second character");
+   if (rc0 != 0) return;
+   unsigned char d0 = vs_u8("val"), d1 = vs_u8("val"); vs_assume(d0 >= '1' && d0 <= '9' && d1 >= '0' && d1 <= '9');
+   char val[3] = {(char) d0, (char) d1, 0}; const int want = (d0 - '0') * 10 + (d1 - '0');
+   unsigned which = vs_choose(3);
+   std::vector<std::string> words;
+   if (which == 0) { words.push_back(LONG[form]); words.push_back(val); }
+   else if (which == 1) { words.push_back(std::string(LONG[form]) + "=" + val); words.push_back("-f"); }
+   else { words.push_back(ABBR[form]); words.push_back(val); }
+   Argv av(words);
+   int rc = guarded([&] { ah.evalArguments(av.argc(), av.argv()); });
+   vs_assert(rc == 0 && x == want && f == (which == 1), "the long key (exact or abbreviated) selects the argument and the value reaches the destination");
 }
